@@ -27,6 +27,7 @@ import (
 	"os"
 	"os/exec"
 	"sort"
+	"strconv"
 	"strings"
 	"sync"
 	"time"
@@ -176,6 +177,8 @@ type worker struct {
 	srv    *drive.Server
 	ignore map[int64]bool // goroutines already reported as hung / leaked
 	wl     string
+	// planWrap, when set, wraps the plan of the next direct run
+	planWrap func(*univ.SeedPlan) univ.Plan
 }
 
 func (w *worker) count(k string, n int64) { w.cr.Counts[k] += n }
@@ -254,6 +257,60 @@ func child(job, outPath string) {
 			w.runDirect(o.op, vars, base, pt)
 		}
 	}
+	w.rogueLists()
+}
+
+// roguePlan makes the union list A.us long and fills it with values of a Go type the generated
+// type switch does not know: marshalling such an element panics at the level of the list element
+// (not inside a field), which is where the list fan-out keeps its own bookkeeping (WaitGroup,
+// worker_limit semaphore).
+type roguePlan struct {
+	*univ.SeedPlan
+	n, rogues int
+}
+
+func (r roguePlan) ListLen(k univ.Key, pos string) int {
+	if k.Field == "us" && pos == "" {
+		return r.n
+	}
+	return r.SeedPlan.ListLen(k, pos)
+}
+
+func (r roguePlan) Null(k univ.Key, pos string) bool {
+	if k.Field == "us" {
+		return false
+	}
+	return r.SeedPlan.Null(k, pos)
+}
+
+func (r roguePlan) Rogue(k univ.Key, pos string) bool {
+	if k.Field != "us" || pos == "" {
+		return false
+	}
+	i, err := strconv.Atoi(strings.TrimPrefix(pos, "/"))
+	return err == nil && i < r.rogues
+}
+
+// rogueLists: lists with more panicking elements than worker slots, then healthy ones.
+func (w *worker) rogueLists() {
+	const q = `{ an { vid us { __typename ... on A { vid } ... on B { vid } } } }`
+	doc, perr := parser.ParseQuery(&ast.Source{Input: q})
+	if perr != nil || len(validator.Validate(w.env.Schema, doc)) > 0 {
+		w.count("rogue_template_rejected", 1)
+		return
+	}
+	for _, shape := range [][2]int{{2, 1}, {4, 3}, {12, 10}, {40, 36}} {
+		for _, pt := range []string{"<never>", "<before-dispatch>"} {
+			w.planWrap = func(p *univ.SeedPlan) univ.Plan { return roguePlan{p, shape[0], shape[1]} }
+			before := w.cr.Counts["terminated"]
+			w.runDirect(&opgen.Op{Query: q}, nil, univ.SeedPlan{Seed: uint64(ev.Seed()) + uint64(shape[0]), MaxList: 2}, pt)
+			w.planWrap = nil
+			if w.cr.Counts["terminated"] > before {
+				w.count("rogue_list_runs_terminated", 1)
+			}
+			w.count(fmt.Sprintf("rogue_list_runs_len_%d_rogues_%d", shape[0], shape[1]), 1)
+		}
+	}
 }
 
 func uniq(in []string) []string {
@@ -319,6 +376,9 @@ func (w *worker) runDirect(op *opgen.Op, vars map[string]any, base univ.SeedPlan
 	ctx, cancel := context.WithCancel(context.Background())
 	defer cancel()
 	run := &univ.Run{Plan: &p, Cancel: cancel}
+	if w.planWrap != nil {
+		run.Plan = w.planWrap(&p)
+	}
 	switch pt {
 	case "<never>":
 	case "<before-dispatch>":
@@ -429,6 +489,11 @@ func (w *worker) transports() {
 		`{ as(n: 3) { vid rs rbl { vid rs } } }`,
 		`{ an { vid ... @defer { rs bo { vid ... @defer(label: "in") { rs } } ri } } }`,
 		`{ as(n: 2) { vid ... @defer(label: "g") { rs rbl { vid ... @defer { rs } } } } }`,
+		// requests the transport refuses before any execution: whatever it set up for the response
+		// (tickers, aggregators) must be torn down on these paths too
+		`{ nosuchfield }`,
+		`!{"query": "{ an { vid }", "variables": 5`,
+		`!`,
 	}
 	n := 0
 	rounds := ev.Pick(3, 20)
@@ -523,6 +588,9 @@ func (w *worker) httpCase(base, id, q, tr, mode string) bool {
 	}
 	defer conn.Close()
 	body, _ := json.Marshal(map[string]any{"query": q})
+	if strings.HasPrefix(q, "!") {
+		body = []byte(q[1:]) // raw (malformed) body
+	}
 	var req bytes.Buffer
 	switch tr {
 	case "get":
